@@ -107,7 +107,7 @@ theorem shutdown_closes_everything (h : (run cfg init sched).sd = .returned .ok)
     ((run cfg init sched).conns c).inMap = false ∧
     (((run cfg init sched).conns c).pc ≠ .notStarted → ((run cfg init sched).conns c).serverClosed = true) := by
   have hi := reachable_inv cfg sched
-  have hm := hi.retOk h c
+  have hm := hi.retOk _ h (by intro e; cases e) c
   exact ⟨hm, fun hp => (hi.cinv c).notInMap hp hm⟩
 
 /-- ... and every request whose handler had started has received its complete reply (unless its handler panicked) -/
@@ -131,6 +131,15 @@ theorem shutdown_keeps_inflight (h : (run cfg init sched).sd = .returned .ok) (c
     have hcl := hall.2 (by rw [x]; intro e; cases e)
     have := hc.closedBy hcl (by simp [Active, x])
     rw [hb] at this; cases this
+
+/-- a Shutdown that is called again after a call that gave up with its context's error sweeps again: when it returns
+(with the error of closing the already closed listener) nothing is left either - it does not return early -/
+theorem repeated_shutdown_sweeps (h : (run cfg init sched).sd = .returned .lerr) (c : Nat) :
+    ((run cfg init sched).conns c).inMap = false ∧
+    (((run cfg init sched).conns c).pc ≠ .notStarted → ((run cfg init sched).conns c).serverClosed = true) := by
+  have hi := reachable_inv cfg sched
+  have hm := hi.retOk _ h (by intro e; cases e) c
+  exact ⟨hm, fun hp => (hi.cinv c).notInMap hp hm⟩
 
 /-- Serve only ever returns the server-closed error -/
 theorem serve_returns_closed (r : ServeRet) (h : (run cfg init sched).acc = .returned r) : r = .closed :=
